@@ -1,16 +1,16 @@
 #!/bin/bash
 # usage: tools/confirm_mutation.sh <worktree>   (patch applied in the worktree, deliverables in <worktree>/_mutation)
 # confirms independently: demo fails with the change, passes without it, and the repository suite still passes with it.
+# (never uses `git stash`: the stash is shared by all worktrees of a repository)
 wt="$1"; m="$wt/_mutation"
 cd "$wt" || exit 2
 run_demo() { (cd "$wt" && PYTHONPATH="$wt" timeout 900 /venv/bin/python _mutation/demo.py > "$m/$1.log" 2>&1; echo $?); }
-with=$(run_demo demo_with)
 git -C "$wt" diff -- . ':(exclude)_mutation' > "$m/patch.confirmed.diff"
-git -C "$wt" stash -q -- dsl_compiler compile.py lib 2>/dev/null || git -C "$wt" stash -q
+if ! diff -q "$m/patch.confirmed.diff" "$m/patch.diff" > /dev/null; then echo "{\"error\": \"worktree diff differs from patch.diff\"}" > "$m/confirm.json"; cat "$m/confirm.json"; exit 1; fi
+with=$(run_demo demo_with)
+git -C "$wt" apply -R "$m/patch.confirmed.diff"
 without=$(run_demo demo_without)
-git -C "$wt" stash pop -q
-suite=$(cd "$wt" && /venv/bin/python -m pytest -q -p no:cacheprovider -q -n 5 --timeout=900 \
-  --deselect tests/test_cli.py::TestCliCoverageGaps::test_read_file_error_unreadable_file \
-  --deselect tests/test_cli.py::TestCliCoverageGaps::test_write_file_error_unwritable_directory 2>&1 | tail -1)
+git -C "$wt" apply "$m/patch.confirmed.diff"
+suite=$(cd "$wt" && /venv/bin/python -m pytest -q -p no:cacheprovider -q -n 6 --timeout=900 --deselect tests/test_cli.py::TestCliCoverageGaps::test_read_file_error_unreadable_file --deselect tests/test_cli.py::TestCliCoverageGaps::test_write_file_error_unwritable_directory 2>&1 | grep -E "^FAILED|passed|failed" | tr '\n' ' ' | tr '"' "'" | cut -c1-600)
 echo "{\"demo_exit_with_change\": $with, \"demo_exit_without_change\": $without, \"suite\": \"$suite\"}" > "$m/confirm.json"
 cat "$m/confirm.json"
